@@ -101,3 +101,7 @@ func vhKeyedPair(sc, rc *vhConn, prefix string) (*Stream, *Stream) {
 	}
 	return s, r
 }
+
+// VHDigestsFrozen reports whether either handshake digest has been frozen (for
+// harnesses of other packages; the overlay makes this file part of the package).
+func VHDigestsFrozen(s *Stream) bool { return s.finalSendDigest != nil || s.finalRecvDigest != nil }
